@@ -22,6 +22,7 @@ is driven with exact numbers (`Fraction(0) ** -1`, `x / 0` raise `ZeroDivisionEr
 would produce inf/nan and a RuntimeWarning instead — outside the model).
 -/
 import ChemModel.Basic.Num
+import ChemModel.Gen.EqSolveDefaults
 
 namespace ChemModel.EqSolve
 
@@ -138,11 +139,11 @@ section numeric
 variable {α : Type} [NatCast α] [IntCast α] [Add α] [Sub α] [Mul α] [Div α] [Neg α]
   [LT α] [DecidableLT α] [DecidableEq α]
 
-/-- default `rtol=1e-9` of `_result_is_sane` (equilibria.py:269) -/
-def saneRtolDefault : α := Num.dec 1 9
+/-- default `rtol` of `_result_is_sane` (equilibria.py:269), EXTRACTED from the source text on every run (`Gen/EqSolveDefaults.lean`) -/
+def saneRtolDefault : α := Num.frac Gen.EqSolveDefaults.saneRtolNum Gen.EqSolveDefaults.saneRtolDen
 
-/-- default `rtol=1e-14` of `_fw_cond_factory` (equilibria.py:119) -/
-def fwRtolDefault : α := Num.dec 1 14
+/-- default `rtol` of `_fw_cond_factory` (equilibria.py:119), extracted likewise -/
+def fwRtolDefault : α := Num.frac Gen.EqSolveDefaults.fwRtolNum Gen.EqSolveDefaults.fwRtolDen
 
 /-- Python `x ** n` for an int `n` on exact numbers: `Fraction(0) ** -1` raises ZeroDivisionError -/
 def pyPow (x : α) (n : Int) : Except Err α :=
@@ -471,5 +472,12 @@ def dissolvedIntArray (phases : List Nat) : List Rxn → List Int → Except Err
       | none => throw .indexError
       | some _ => throw .typeError
     else dissolvedIntArray phases rs c
+
+/-- `NumSysLin.internal_x0_cb(init_concs, params)` (chempy/_eqsys.py:169-171): the internal starting point of the linear formulation,
+    `(99 * init_concs + self.eqsys.dissolved(init_concs)) / 100` ("reduce risk of stationary starting point") -/
+def linInternalX0 {α : Type} [NatCast α] [IntCast α] [Add α] [Sub α] [Mul α] [Div α] [Neg α] [LT α] [DecidableLT α] [DecidableEq α]
+    (phases : List Nat) (rxns : List Rxn) (c0 : List α) : Except Err (List α) := do
+  let d ← dissolved phases rxns c0
+  pure (List.zipWith (fun c dv => (((99 : Nat) : α) * c + dv) / ((100 : Nat) : α)) c0 d)
 
 end ChemModel.EqSolve
